@@ -25,14 +25,15 @@ ListedMasked(soft, hard) == \/ soft = "room_id" /\ hard \in {"type", "state_key"
 Listed == Family = "pair" /\ \E s \in SoftFields, h \in HardItems : ListedMasked(s, h)
 PinnedDesc(f) == LET sh == sc.fields[f] IN
                  IF sh = Natural THEN "" ELSE f \o (IF CpsOf(sh) > 255 THEN ":over-cps;" ELSE ":bytes-only;")
-Desc == (IF Family = "pair" /\ ~Listed
+Desc == (IF sc.create THEN "create-event;" ELSE "") \o
+        (IF Family = "pair" /\ ~Listed
          THEN "two:" \o PinnedDesc("type") \o PinnedDesc("state_key") \o PinnedDesc("sender") \o PinnedDesc("room_id")
          ELSE FieldDesc("type") \o FieldDesc("state_key") \o FieldDesc("sender") \o FieldDesc("room_id"))
         \o (IF sc.size = 0 THEN "" ELSE IF sc.size > 65536 THEN "json>65536;" ELSE "json<=65536;")
         \o (IF sc.hash = "match" THEN "" ELSE "hash=" \o sc.hash \o ";")
 
 Emit == Done =>
-          PrintT(ToJson([fam |-> Family, ver |-> sc.ver, path |-> sc.path, hash |-> sc.hash, size |-> sc.size, sizeof |-> sc.sizeof,
+          PrintT(ToJson([fam |-> Family, ver |-> sc.ver, path |-> sc.path, hash |-> sc.hash, size |-> sc.size, sizeof |-> sc.sizeof, create |-> sc.create,
                          fields |-> [f \in Fields |-> [cps |-> sc.fields[f].cps, nwide |-> sc.fields[f].nwide,
                                                        width |-> sc.fields[f].width, bytes |-> BytesOf(sc.fields[f])]],
                          want |-> out, vclass |-> VClass(sc.ver), desc |-> Desc, listed |-> Listed]))
